@@ -4,6 +4,8 @@ mod json;
 mod l1;
 mod macx;
 mod seqx;
+mod shapes;
+mod shapes_gen;
 mod thrx;
 mod vals;
 
@@ -166,6 +168,84 @@ fn seqx_replay(path: &str, property: &str) -> i32 {
     }
 }
 
+fn shapex_run(sh: &shapes::Shape, thorough: bool) -> (shapes::ShapeCtx, u64, shapes::ShapeCtx, u64, Option<usize>) {
+    use std::sync::atomic::Ordering;
+    shapes::EXECS.store(0, Ordering::SeqCst);
+    let mut c1 = shapes::ShapeCtx::new(thorough);
+    (sh.run)(&mut c1);
+    let e1 = shapes::EXECS.swap(0, Ordering::SeqCst);
+    let mut c2 = shapes::ShapeCtx::new(thorough);
+    (sh.run)(&mut c2);
+    let e2 = shapes::EXECS.swap(0, Ordering::SeqCst);
+    let listed = l1::list_keys(sh.name).map(|v| v.len());
+    (c1, e1, c2, e2, listed)
+}
+
+fn shapex_main(args: &Args) -> i32 {
+    let thorough = args.get("tier") == Some("thorough");
+    let only = args.get("shape").map(|s| s.to_string());
+    let shard = args.shard();
+    for (i, sh) in shapes_gen::SHAPES.iter().enumerate() {
+        if let Some(o) = &only {
+            if sh.name != o {
+                continue;
+            }
+        } else if i % shard.1 != shard.0 {
+            continue;
+        }
+        let t0 = std::time::Instant::now();
+        let (c1, e1, c2, e2, listed) = shapex_run(sh, thorough);
+        let mut problems: Vec<(String, String)> = Vec::new();
+        if e1 != c1.evals {
+            problems.push(("shared-entry".into(), format!("{} distinct argument tuples, the body ran {} times: some tuples were served another tuple's entry", c1.evals, e1)));
+        }
+        if let Some((w, g)) = c1.mismatches.first().or(c2.mismatches.first()) {
+            problems.push(("wrong-tuple-served".into(), format!("call with {w} returned the value computed for {g}")));
+        }
+        if let Some(n) = listed {
+            if n as u64 != c1.evals {
+                problems.push(("key-count".into(), format!("{} distinct tuples but {} distinct keys stored", c1.evals, n)));
+            }
+        }
+        if e2 != 0 && problems.is_empty() {
+            // informational only: reuse is C03's business
+        }
+        emit(
+            "SHAPE",
+            J::obj()
+                .set("name", sh.name)
+                .set("signature", sh.signature)
+                .set("generator", if sh.is_async { "async format!(\"{:?}\")" } else { "sync to_cache_key" })
+                .set("method", sh.is_method)
+                .set("tuples", c1.evals)
+                .set("executions_first_pass", e1)
+                .set("executions_second_pass", e2)
+                .set("keys_listed", listed)
+                .set("nontrivial", c1.nontrivial())
+                .set("samples", J::Arr(vec![J::from(c1.first.clone()), J::from(c1.last.clone())]))
+                .set("wall_s", t0.elapsed().as_secs_f64()),
+        );
+        let c01 = args.get("property") == Some("C01");
+        for (mon, detail) in problems {
+            if c01 && mon != "wrong-tuple-served" {
+                continue;
+            }
+            let v = Violation {
+                property: if c01 { "C01" } else { "C02" },
+                signature: format!("{}/{}/{}/{}", if c01 { "C01" } else { "C02" }, if sh.is_async { "async" } else { "sync" }, if sh.is_method { "method" } else { "fn" }, mon),
+                detail: format!("{detail} | shape {} {}", sh.name, sh.signature),
+                replay: J::obj().set("engine", "shapex").set("shape", sh.name).set("tier", if thorough { "thorough" } else { "quick" }),
+            };
+            emit("VIOLATION", v.to_json());
+            if only.is_some() {
+                println!("FINDING {}: {}", v.signature, v.detail);
+            }
+        }
+    }
+    emit("DONE", J::obj().set("shapes_total", shapes_gen::SHAPES.len()));
+    0
+}
+
 fn macx_main(args: &Args) -> i32 {
     if let Some(path) = args.get("replay") {
         return macx_replay(path, args.get("property").unwrap_or(""));
@@ -252,18 +332,34 @@ fn thrx_main(args: &Args) -> i32 {
         }
         return 0;
     }
-    let idx = args.usize("driver", usize::MAX);
-    let d = match drivers.get(idx) {
-        Some(d) => d,
+    // one driver per process, except batches of thread-scope-only drivers (label "T:...", nothing is registered)
+    let (lo, hi) = match args.get("drivers") {
+        Some(r) => {
+            let mut it = r.split(':');
+            let a: usize = it.next().and_then(|x| x.parse().ok()).unwrap_or(0);
+            let b: usize = it.next().and_then(|x| x.parse().ok()).unwrap_or(a + 1);
+            (a, b)
+        }
         None => {
-            eprintln!("no driver {idx}");
-            return 2;
+            let i = args.usize("driver", usize::MAX);
+            (i, i.saturating_add(1))
         }
     };
-    let max_bound = args.usize("bound", if thorough { 3 } else { 2 });
+    if lo >= drivers.len() {
+        eprintln!("no driver {lo}");
+        return 2;
+    }
+    let default_bound = if thorough { 3 } else { 2 };
     let max_execs = args.usize("max-execs", if thorough { 3_000_000 } else { 300_000 }) as u64;
+    for d in &drivers[lo..hi.min(drivers.len())] {
+    if hi - lo > 1 && !d.label.starts_with("T:") {
+        eprintln!("driver {} cannot be batched", d.label);
+        return 2;
+    }
     let t0 = std::time::Instant::now();
-    let r = thrx::explore_driver(d, &property, max_bound, max_execs);
+    let max_bound = args.usize("bound", default_bound);
+    // thread-scope drivers have only a handful of points (operation boundaries): no effective preemption bound
+    let r = thrx::explore_driver(d, &property, max_bound, if d.label.starts_with("T:") { 12 } else { 0 }, max_execs);
     emit(
         "DRIVER",
         J::obj()
@@ -271,7 +367,7 @@ fn thrx_main(args: &Args) -> i32 {
             .set("threads", d.threads.len())
             .set("schedules", r.schedules)
             .set("by_bound", J::Arr(r.by_bound.iter().map(|(b, p, n)| J::obj().set("bound", *b).set("rw_policy", p.clone()).set("schedules", *n)).collect()))
-            .set("preemption_bound_completed", if r.exec_cap_hit { J::Null } else { J::Int(max_bound as i64) })
+            .set("preemption_bound_completed", if r.exec_cap_hit { J::Null } else { J::Int(r.bound_used as i64) })
             .set("exec_cap_hit", r.exec_cap_hit)
             .set("max_points", r.max_points)
             .set("points_total", r.points_total)
@@ -282,6 +378,7 @@ fn thrx_main(args: &Args) -> i32 {
     );
     for v in &r.violations {
         emit("VIOLATION", v.to_json());
+    }
     }
     emit("DONE", J::obj());
     0
@@ -298,6 +395,7 @@ fn thrx_replay(path: &str, property: &str) -> i32 {
     };
     let schedule: Vec<usize> = j.get("schedule").and_then(|x| x.as_arr()).unwrap().iter().map(|x| x.as_i64().unwrap() as usize).collect();
     let prep = thrx::Prepared::new(&d);
+    prep.compute_isolated_patterns();
     let mut runs = Vec::new();
     for _ in 0..2 {
         let out = vsched::run(&schedule, &[], prep.make_threads(), pol, 20_000);
@@ -342,6 +440,10 @@ fn main() {
             seqx_main(&args)
         }
         "thrx" => thrx_main(&args),
+        "shapex" => {
+            vsched::sequential_mode(true);
+            shapex_main(&args)
+        }
         "macx" => {
             vsched::sequential_mode(true);
             macx_main(&args)
